@@ -112,6 +112,14 @@ def run_loops(case, ctx):
                  info=str(res.get("result"))[:500])
 
 
+def _batch_size(draw, loop, evo):
+    """usually a small batch; for the loops that learn from a growing buffer also one LARGER than an agent's steps per generation
+    (the shared buffer reaches a full batch only during a later agent's turn / a later generation)"""
+    if loop in ("bandits", "off_policy", "ma_off") and draw(st.integers(0, 2)) == 0:
+        return draw(st.integers(evo + 1, 2 * evo))
+    return draw(st.integers(2, 4))
+
+
 @st.composite
 def loops_strategy(draw, tier):
     from vp.props.c20_loops import LOOP_ALGOS
@@ -142,7 +150,7 @@ def loops_strategy(draw, tier):
     return {"loop": loop, "algo": algo, "obs": obs, "obsv": draw(st.integers(0, 2)), "actv": draw(st.integers(0, 2)), "act": act,
             "envs": envs, "pop": pop, "seed": draw(st.integers(0, 999)), "ep_len": draw(st.integers(2, 7)),
             "evo_steps": evo, "max_steps": max_steps, "eval_steps": draw(st.sampled_from([None, 3, 5])),
-            "batch_size": draw(st.integers(2, 4)), "learn_step": draw(st.sampled_from([1, 2, 3, 4, 8])),
+            "batch_size": _batch_size(draw, loop, evo), "learn_step": draw(st.sampled_from([1, 2, 3, 4, 8])),
             "learning_delay": draw(st.sampled_from([0, 0, 3])), "memory": draw(st.sampled_from(["uniform", "per", "nstep", "per+nstep"])),
             "evolve": draw(st.booleans()), "mut_probs": draw(st.sampled_from([[1, 0, 0, 0, 0], [0.2, 0.2, 0.2, 0.2, 0.2], [0, 0.5, 0, 0, 0.5], [0, 0, 1, 0, 0]])),
             "checkpoint": draw(st.sampled_from([None, None, 5])), "target": draw(st.sampled_from([None, None, None, 1e9]))}
